@@ -71,3 +71,14 @@ func badRangeWrite() int {
 	}
 	return s
 }
+
+func badAliasInLoop(n int) [][]byte {
+	a := make([]byte, 2)
+	var keep []byte
+	for i := 0; i < n; i++ {
+		keep = a
+		a[0] = byte(i)
+	}
+	_ = keep
+	return nil
+}
